@@ -90,13 +90,15 @@ func eval(c Case, dir string) hx.Result {
 			// rich variant: every edit kind at spec level and in both devices, so that anything an
 			// injection writes through a shared pointer or slice of the cached Spec shows up
 			rich := func(tag string) specs.ContainerEdits {
-				tm := 3
+				tm, zero := 3, 0
 				return specs.ContainerEdits{
 					Env: []string{"E_" + tag + "=1", "SHARED=" + tag},
 					Mounts: []*specs.Mount{{HostPath: "/h/" + tag, ContainerPath: "/c/" + tag, Options: []string{"ro", tag}}, {HostPath: "/h2/" + tag, ContainerPath: "/shared"},
 						// spellings that are not in cleaned form (what an injection normalises must not be written back into the cache)
 						{HostPath: "/h3/" + tag, ContainerPath: "/c/" + tag + "/unclean/"}, {HostPath: "//h4/./" + tag, ContainerPath: "//dbl/./" + tag}},
-					Hooks:          []*specs.Hook{{HookName: "prestart", Path: "/hook/" + tag, Args: []string{"a", tag}, Env: []string{"H=" + tag}, Timeout: &tm}},
+					// scalars that are present but zero / empty (a hook timeout of 0, an empty argument, an empty value) next to populated ones
+					Hooks: []*specs.Hook{{HookName: "prestart", Path: "/hook/" + tag, Args: []string{"a", tag}, Env: []string{"H=" + tag}, Timeout: &tm},
+						{HookName: "poststop", Path: "/hook/zero-" + tag, Args: []string{"", "x"}, Env: []string{"EMPTY="}, Timeout: &zero}},
 					IntelRdt:       &specs.IntelRdt{ClosID: "clos-" + tag, L3CacheSchema: "L3:" + tag, EnableCMT: tag == "spec"},
 					AdditionalGIDs: []uint32{0, 7, 0, uint32(len(tag)), 7}, // ignored zeros and a repeat between the values: whatever filters them must not do so in place
 				}
